@@ -1025,6 +1025,11 @@ def enum_listing_in_declaration_order(ctx: Ctx, rule: str, cls_q: str, why: str)
                 sts = m.module.assigns.get(val.id, [])
                 if len(sts) == 1 and getattr(sts[0], "value", None) is not None:
                     val = sts[0].value
+            if isinstance(val, ast.Name) and val.id in (k.name, "cls") and isinstance(r, ast.Return) and isinstance(r.value, ast.Call):
+                # `list(ProcessingStage)`: the members of an enumeration are iterated in the order of their declaration
+                n += 1
+                rep.ok(rule, m.qname, f"{k.name}.{m.name} lists the members in their declaration order (iteration over the enumeration)", m.loc(r))
+                continue
             if isinstance(val, (ast.List, ast.Tuple)) and val.elts and all(
                     isinstance(e, ast.Attribute) and isinstance(e.value, ast.Name) and e.value.id in (k.name, "cls") for e in val.elts):
                 n += 1
